@@ -467,10 +467,17 @@ def run_c11_rounds(case: dict[str, Any]) -> dict[str, Any]:
     rounds = [dec_spans(r) for r in case["rounds"]]
     b, tb = case["batch"], case["time_buffer"]
     viol: list[dict[str, Any]] = []
-    dh = new_holder("sqlite:///:memory:", b, tb)
+    fresh = bool(case.get("fresh_holder"))      # a new run of the tool per round: a new holder on the same file-backed store
+    tmpdir = tempfile.mkdtemp(prefix="vstore_", dir="/dev/shm" if os.path.isdir("/dev/shm") else None) if fresh else None
+    uri = f"sqlite:///{tmpdir}/store.db" if fresh else "sqlite:///:memory:"
+    dh = new_holder(uri, b, tb)
     saved: list[Span] = []
     try:
         for ri, stream in enumerate(rounds):
+            if fresh and ri > 0:
+                dispose(dh)
+                dh = new_holder(uri, b, tb)
+                saved = []                      # the window of a run is derived from what *this* run ingested
             ingest(dh, stream)
             saved += stream
             v0 = view(dh)
@@ -506,7 +513,9 @@ def run_c11_rounds(case: dict[str, Any]) -> dict[str, Any]:
                 break
     finally:
         dispose(dh)
-    return {"violations": viol, "nontrivial": [json.dumps(case["rounds"]) + f"|{b}|{tb}"], "sample": None}
+        if tmpdir:
+            shutil.rmtree(tmpdir, ignore_errors=True)
+    return {"violations": viol, "nontrivial": [json.dumps(case["rounds"]) + f"|{b}|{tb}|{fresh}"], "sample": None}
 
 
 def trace_variants(tid: str, name: str) -> list[list[Span]]:
@@ -560,6 +569,7 @@ def domain_c11(tier: str, rng: random.Random) -> Iterable[dict[str, Any]]:
         for second in (later, earlier, later + earlier):
             for tb in (0, 1):
                 yield {"rounds": [enc_spans(first), enc_spans(second)], "batch": 100, "time_buffer": tb}
+                yield {"rounds": [enc_spans(first), enc_spans(second)], "batch": 100, "time_buffer": tb, "fresh_holder": True}
 
 
 # ============================================================================= C12: streaming
@@ -648,6 +658,9 @@ def domain_c12(tier: str, rng: random.Random) -> Iterable[dict[str, Any]]:
     # workflow names that differ only in capitalisation, with interleaving trace ids (any collation of the ORDER BY other than the one
     # the grouping compares with breaks the runs)
     shared.append(chain("A", 2, "Checkout") + chain("B", 2, "checkout") + chain("C", 3, "Checkout", True) + chain("D", 1, "checkout") + chain("E", 2, "payment"))
+    # span ids that contain separators (comma, space, empty-looking)
+    shared.append([s._replace(event_id=s.event_id.replace(".", ","), parent=None if s.parent is None else s.parent.replace(".", ","))
+                   for s in chain("A", 4, "W1", True) + chain("B", 3, "W1")] + chain("C", 2, "W2"))
     for sp in shared:
         for b in batches:
             yield {"spans": enc_spans(sp), "batch": b, "filter": None}
@@ -797,6 +810,13 @@ def domain_c09(tier: str, rng: random.Random) -> Iterable[dict[str, Any]]:
         par2, lab2 = par + (par[leaf] if par[leaf] is not None else 0,), lab + (lab[leaf],)
         c = tree_spans("T3", par2, lab2, "W1")
         yield {"spans": enc_spans(a + bsp + c), "batch": rng.choice(batches)}
+    # instantaneous single-span traces that are the first / the last event of the data (they sit exactly on the bounds of the window)
+    mid = tree_spans("T1", (None, 0), ("A", "B"), "W1") + tree_spans("T2", (None, 0, 0), ("A", "B", "B"), "W1")
+    first = [span("Z0", 0, None, 0, 0, etype="Startup", name="W1")]
+    last = [span("Z9", 0, None, 9, 9, etype="Shutdown", name="W1"), span("Z9", 1, "Z9.s0", 9, 9, etype="Flush", name="W1")]
+    for b in (1, 2, 1000):
+        yield {"spans": enc_spans(first + mid + last), "batch": b}
+        yield {"spans": enc_spans(first), "batch": b}
     # three large traces of one shape (a root with 3999 leaves each): more rows per root batch than any fetch size used internally
     big = []
     for k in range(3):
@@ -901,6 +921,11 @@ def domain_c15(tier: str, rng: random.Random) -> Iterable[dict[str, Any]]:
     stores.append(chain("A", 3, "W1") + chain("B", 3, "W1") + [span("D", 1, "D.missing", 0, 9, name="W2")])
     # a broken trace one of whose spans hangs under a span of a *kept* trace (the association row crosses traces)
     stores.append(chain("A", 2, "W1") + [span("B", 0, None, 1, 2, name="W1"), span("B", 1, "B.gone", 1, 2, name="W1"), span("B", 2, "A.s0", 1, 2, name="W1")])
+    # traces far apart in time, the broken one in the middle (what a re-ingestion sees of the time axis must not depend on what is stored)
+    def at(spans: list[Span], m: int) -> list[Span]:
+        return [s_._replace(start=s_.start + m * MIN, end=s_.end + m * MIN) for s_ in spans]
+    stores.append(at(chain("A", 2, "W1"), 0) + at([span("B", 0, None, 0, 1, name="W1"), span("B", 1, "B.gone", 0, 1, name="W1")], 10)
+                  + at(chain("C", 3, "W1", True), 20))
     flags = [[i, u] for i in (True, False) for u in (True, False)]
     maxlen = 3 if tier == "quick" else 4
     # a store spread over six minutes with a one-minute buffer: the first (ingesting) run trims the traces lying in the
